@@ -66,3 +66,93 @@ contract(T, '_get_subitems', variant='tuple-slice', props=['C01'],
     let={'n': 'bounds[len(bounds) - 1]', 'S': 'norm_start(item[0].start, bounds[len(bounds) - 1])', 'E': 'norm_stop(item[0].stop, bounds[len(bounds) - 1])'},
     requires=[(l, e.replace('item.', 'item[0].')) for l, e in SLICE_REQ],
     result='list[tuple[int,slice]]', ensures=SLICE_ENS)
+
+# ---------------------------------------------------------------------------------------------------------
+# BaseEphysReader.__getitem__: abstract view — `self.rows` is the concatenation A of the parts (rows are opaque values);
+# part c holds rows A[b[c] : b[c+1]] with b = self.part_bounds (class invariant WF(R)).
+# ---------------------------------------------------------------------------------------------------------
+import contracts.c02 as _c02  # noqa  (contracts of _append_op / _apply_ops)
+from contracts.c02 import FIELDS
+
+RWF = [('at-least-one-part', 'len(self.part_bounds) >= 2'), ('starts-at-0', 'self.part_bounds[0] == 0'),
+       ('parts-nonempty', 'increasing(self.part_bounds)'),
+       ('rows-are-the-concatenation', 'len(self.rows) == self.part_bounds[len(self.part_bounds) - 1]')]
+
+# assumed contract of the backends' _get_part (memmap / np.load / in-memory / mtscomp decode): A, validated by the bounded stand-in
+contract('<lib>', 'BaseEphysReader._get_part', variant='slice', kind='assumed',
+    params={'self': 'obj[BaseEphysReader]', 'part_idx': 'int', 'subitem': 'slice[int,int,int]'}, fields=FIELDS,
+    requires=[('part-exists', '0 <= part_idx and part_idx + 1 < len(self.part_bounds)'),
+              ('slice-inside-part', 'subitem.step == 1 and 0 <= subitem.start and subitem.start < subitem.stop and subitem.stop <= self.part_bounds[part_idx + 1] - self.part_bounds[part_idx]')],
+    result='arr[elem]',
+    ensures=['len(result) == subitem.stop - subitem.start',
+             'all(result[k] == self.rows[self.part_bounds[part_idx] + subitem.start + k] for k in range(subitem.stop - subitem.start))'])
+contract('<lib>', 'BaseEphysReader._get_part', variant='int', kind='assumed',
+    params={'self': 'obj[BaseEphysReader]', 'part_idx': 'int', 'subitem': 'int'}, fields=FIELDS,
+    requires=[('part-exists', '0 <= part_idx and part_idx + 1 < len(self.part_bounds)'),
+              ('row-inside-part', '0 <= subitem and subitem < self.part_bounds[part_idx + 1] - self.part_bounds[part_idx]')],
+    result='arr[elem]',     # one row; np.vstack makes it a 1 x n_channels block
+    ensures=['len(result) == 1', 'result[0] == self.rows[self.part_bounds[part_idx] + subitem]'])
+
+_N = 'self.part_bounds[len(self.part_bounds) - 1]'
+GI_LET = {'n': _N}
+
+contract(T, 'BaseEphysReader.__getitem__', variant='int', props=['C01'],
+    params={'item': 'int'}, fields=FIELDS, let=GI_LET,
+    requires=RWF + [('index-in-range', '-n <= item and item < n')],
+    result='arr[elem]', locals={'to_concat': 'blocks[elem]'},
+    loops={0: {'idx': 'k', 'seq': 'pieces', 'invariant': [
+        ('one-block-per-piece', 'nblocks(to_concat) == k and 0 <= k and k <= 1 and len(flat(to_concat)) == k'),
+        ('rows-so-far', 'implies(k == 1, flat(to_concat)[0] == self.rows[ite(item < 0, item + n, item)])')]}},
+    # "an integer selects one row, returned two-dimensional"
+    ensures=[('one-row', 'len(result) == 1'),
+             ('is-that-row-of-the-concatenation-after-deferred-ops', 'result[0] == ops_fold(self._ops, len(self._ops), self.rows[ite(item < 0, item + n, item)])')])
+
+SL = {'S': 'norm_start(item.start, %s)' % _N, 'E': 'norm_stop(item.stop, %s)' % _N}
+COV = 'ite(k == 0, S, self.part_bounds[pieces[k - 1][0]] + pieces[k - 1][1].stop)'
+contract(T, 'BaseEphysReader.__getitem__', variant='slice', props=['C01'],
+    params={'item': 'slice[opt[int],opt[int],opt[int]]'}, fields=FIELDS, let=dict(GI_LET, **SL),
+    requires=RWF + [(l, e.replace('bounds', 'self.part_bounds')) for l, e in SLICE_REQ[3:]],
+    result='arr[elem]', locals={'to_concat': 'blocks[elem]'},
+    loops={0: {'idx': 'k', 'seq': 'pieces', 'invariant': [
+        ('one-block-per-piece', 'nblocks(to_concat) == k and 0 <= k and k <= len(pieces)'),
+        ('covered-prefix', 'len(flat(to_concat)) == %s - S' % COV),
+        ('rows-so-far', 'all(flat(to_concat)[r] == self.rows[S + r] for r in range(len(flat(to_concat))))')]}},
+    # "returns exactly the rows NumPy would return on the concatenated array"
+    ensures=[('row-count', 'len(result) == E - S'),
+             ('rows-of-the-concatenation-after-deferred-ops', 'all(result[r] == ops_fold(self._ops, len(self._ops), self.rows[S + r]) for r in range(E - S))')])
+
+import itertools as _it
+_FOLD_SELF = 'ops_fold(self._ops, len(self._ops), %s)'
+
+contract(T, 'BaseEphysReader.__getitem__', variant='tuple-full-slice', props=['C01', 'C02'],
+    params={'item': 'tuple[slice[none,none,none],elem]'}, fields=FIELDS, requires=RWF,
+    result='obj[BaseEphysReader]',
+    # "whole-recording channel selection is again a reader": reader[:, cols] returns a clone deferring the column selection, reads nothing
+    ensures=[('is-again-a-reader-and-new', 'is_fresh(result) and is_fresh(result._ops)'),
+             ('defers-the-column-selection', "all(ops_fold(result._ops, len(result._ops), r) == op_row('cols', item[1], %s) for r in elems())" % (_FOLD_SELF % 'r')),
+             ('parent-unchanged', 'self._ops == old(list(self._ops))'),
+             ('same-recording', 'result.part_bounds is self.part_bounds and result.rows is self.rows')])
+
+_SL_CASES = [{'item': 'tuple[slice[%s,%s,%s],elem]' % c} for c in _it.product(('int', 'none'), repeat=3) if c != ('none', 'none', 'none')]
+contract(T, 'BaseEphysReader.__getitem__', variant='tuple-slice', props=['C01'],
+    params={'item': 'tuple[slice[opt[int],opt[int],opt[int]],elem]'}, cases=_SL_CASES, fields=FIELDS,
+    let=dict(GI_LET, S='norm_start(item[0].start, %s)' % _N, E='norm_stop(item[0].stop, %s)' % _N),
+    requires=RWF + [(l, e.replace('bounds', 'self.part_bounds').replace('item.', 'item[0].')) for l, e in SLICE_REQ[3:]],
+    result='arr[elem]', locals={'to_concat': 'blocks[elem]'},
+    loops={0: {'idx': 'k', 'seq': 'pieces', 'invariant': [
+        ('one-block-per-piece', 'nblocks(to_concat) == k and 0 <= k and k <= len(pieces)'),
+        ('covered-prefix', 'len(flat(to_concat)) == %s - S' % COV),
+        ('rows-so-far', 'all(flat(to_concat)[r] == self.rows[S + r] for r in range(len(flat(to_concat))))')]}},
+    # "optionally followed by a channel selector, returns exactly the rows and columns NumPy would return"
+    ensures=[('row-count', 'len(result) == E - S'),
+             ('rows-then-deferred-ops-then-columns', "all(result[r] == op_row('cols', item[1], %s) for r in range(E - S))" % (_FOLD_SELF % 'self.rows[S + r]'))])
+
+contract(T, 'BaseEphysReader.__getitem__', variant='tuple-int', props=['C01'],
+    params={'item': 'tuple[int,elem]'}, fields=FIELDS, let=GI_LET,
+    requires=RWF + [('index-in-range', '-n <= item[0] and item[0] < n')],
+    result='arr[elem]', locals={'to_concat': 'blocks[elem]'},
+    loops={0: {'idx': 'k', 'seq': 'pieces', 'invariant': [
+        ('one-block-per-piece', 'nblocks(to_concat) == k and 0 <= k and k <= 1 and len(flat(to_concat)) == k'),
+        ('rows-so-far', 'implies(k == 1, flat(to_concat)[0] == self.rows[ite(old(item[0]) < 0, old(item[0]) + n, old(item[0]))])')]}},
+    ensures=[('one-row', 'len(result) == 1'),
+             ('that-row-then-deferred-ops-then-columns', "result[0] == op_row('cols', item[1], %s)" % (_FOLD_SELF % 'self.rows[ite(item[0] < 0, item[0] + n, item[0])]'))])
